@@ -304,7 +304,9 @@ func sampleValue(r *core.Rng, t *yang.RType) (good string, bad string) {
 		// replacement character, letters of several bytes), and two that are not
 		"sctp", "c17-idt:tcp", "c17-idt:udp", "tcp", "udp", "c17-idt:sctp", "cidt:tcp", "it:tcp", "c17-idt:proto", "proto",
 		"1.000000000001", "2.499999999999", "3.5000000001", "-0.000000000001", "2.5000000001", "-1.5000000001", "0.999999999999", "3.5", "-1.5",
-		"a\u007fb", "k\u0085", "\u009f", "é日", "caf\ufffd", "a\x01b", "\ufffe"}
+		"a\u007fb", "k\u0085", "\u009f", "é日", "caf\ufffd", "a\x01b", "\ufffe",
+		// a line break is a character of a string, and not one that the wildcard of a pattern stands for
+		"t\ne", "a\nb", "e\n", "tre\ne"}
 	var goods, bads []string
 	for _, c := range cands {
 		if t.Accepts(c) {
